@@ -14,6 +14,7 @@ from typing import Any, Dict, List, Optional
 from rpv.checks.inproc_util import candidate_days, clean_cut, get_ip, sched_from_json, sched_json
 from rpv.gen import METHODS, Profile, Q11, dstr, fmt_ts, history, parse_ts
 from rpv.model import Model
+from rpv.workload import deepen
 from rpv.oracle.balance import is_valid, overdraft
 
 PROPERTY_ID = "C08"
@@ -160,7 +161,7 @@ def run_shard(ctx: Any) -> None:
     done = 0
     while done < share and (ctx.budget_s - ctx.time_left()) < ctx.budget_s * 0.75:
         rng = ctx.rng("case", index)
-        hist = history(rng, PROFILES[index % len(PROFILES)])
+        hist = history(rng, deepen(ctx, index, PROFILES[index % len(PROFILES)]))
         if is_valid(Model(hist)):
             sched = {1970: rng.choice(METHODS)}
             _observe(ctx, ip, hist, sched, False, None, "valid")
